@@ -83,6 +83,7 @@ def run_unit(unit, snapshot, workdir, timeout=600):
            "trusted": [], "sources": [], "wall_s": 0.0, "reason": ""}
     t0 = time.time()
     g = vgen.Gen(snapshot, os.path.dirname(udir))
+    vgen.RW_COUNTS.clear()
     try:
         lines = g.expand(os.path.join(udir, unit.get("template", "unit.vrs")))
     except ExtractError as e:
@@ -93,6 +94,11 @@ def run_unit(unit, snapshot, workdir, timeout=600):
     path = os.path.join(workdir, name.replace("-", "_") + ".rs")
     open(path, "w").write("\n".join(lines))
     res["generated"] = path
+    # rewrite-match counts per extracted item (item name -> {pattern: count}); compared with the baseline by the driver
+    res["rw_counts"] = {}
+    for it in g.items:
+        key = "%s::%s" % (it["file"], it["src_name"])
+        res["rw_counts"].setdefault(it["name"], {}).update({k: v for k, v in vgen.RW_COUNTS.get(key, {}).items()})
     res["sources"] = sorted(g.sources)
     res["functions"] = ["%s:%d %s%s (%s)" % (it["file"], it["line"], (it["impl"] + " :: ") if it["impl"] else "", it["src_name"], it["kind"]) for it in g.items]
     obs = vgen.obligations_in(lines)
